@@ -1815,7 +1815,7 @@ class Bits:
                  output_stream, bitstring.options.lsb0, 1)
         output_stream.write("]")
         if trailing_bit_length != 0:
-            output_stream.write(" + trailing_bits = " + str(self[-trailing_bit_length:]))
+            output_stream.write(" + trailing_bits = " + self[-trailing_bit_length:]._str(None))
         output_stream.write("\n")
         stream.write(output_stream.getvalue())
         return
